@@ -1,13 +1,22 @@
 (** * Props/C13.v — Simplification is a terminating, idempotent, cache-transparent canonicaliser.
 
-    Proved here about the functional driver model [Simplify.simp] (no cache):
-    results are fixed points and do not depend on the fuel (so "the result" is well defined).
+    Proved here
+    - about the cache-free driver model [Simplify.simp]: results are fixed points and do not depend on
+      the fuel (so "the result" is well defined);
+    - about the MEMOISING driver model [SimplifyCache.simplify_cached] (work stack, persistent cache,
+      re-queuing, [get_fixed_point] with pointer updates, as written in transform.rs / meta.rs):
+      whatever the instance simplified before (any cache satisfying [cache_inv], which the empty cache
+      does and every call preserves), a returned result is the cache-free result of that expression
+      alone: cache transparency, history independence, idempotence through the cache.
     NOT proved: termination for all inputs (the full statement is
-      forall e, wt e = true -> exists n r, simp n e = SOk r
-    and stays unproved; termination is observed under a watchdog by the correspondence check),
-    and cache transparency (the memoising driver of transform.rs is compared with the
-    cache-free model and with a fresh simplifier on every generated batch, not proved). *)
-From Patronus Require Import Simplify SimplifyFix.
+      forall e, wt e = true -> exists n, simp n e <> SFuel
+    and stays unproved; termination is observed under a watchdog by the correspondence check).  The
+    cache theorems are therefore stated for calls that return.  The two cache CONTAINERS are abstracted
+    to the finite-map interface they share; their agreement is checked by the correspondence (results
+    and final cache contents of both containers against the model), not proved. *)
+From Coq Require Import List.
+From Patronus Require Import Simplify SimplifyFix SimplifyCache SimplifyCacheProofs.
+Import ListNotations.
 
 Theorem C13_simp_idempotent_partial :
   forall (n : nat) (e r : expr), simp n e = SOk r -> exists m, (m <= n)%nat /\ simp m r = SOk r.
@@ -18,6 +27,48 @@ Theorem C13_simp_fuel_independent :
   forall (n m : nat) (e r r' : expr), simp n e = SOk r -> simp m e = SOk r' -> r = r'.
 Proof. exact simp_deterministic. Qed.
 Print Assumptions C13_simp_fuel_independent.
+
+(** ** cache transparency *)
+Theorem C13_cache_inv_empty : cache_inv [].
+Proof. exact cache_inv_nil. Qed.
+Print Assumptions C13_cache_inv_empty.
+
+Theorem C13_cache_transparent :
+  forall (fuel : nat) (c : cache) (e : expr) (c' : cache) (r : expr),
+    cache_inv c -> simplify_cached fuel c e = (c', SOk r) ->
+    cache_inv c' /\ exists n, simp n e = SOk r.
+Proof. exact simplify_cached_sound. Qed.
+Print Assumptions C13_cache_transparent.
+
+(** a whole history through one instance, starting from any invariant cache (e.g. a fresh instance) *)
+Theorem C13_history_transparent :
+  forall (fuel : nat) (es : list expr) (c c' : cache) (rs : list sres),
+    cache_inv c -> simplify_batch fuel c es = (c', rs) ->
+    cache_inv c' /\ Forall2 (fun e s => forall r, s = SOk r -> exists n, simp n e = SOk r) es rs.
+Proof. exact simplify_batch_sound. Qed.
+Print Assumptions C13_history_transparent.
+
+Theorem C13_history_independent :
+  forall (f1 f2 : nat) (c1 c2 : cache) (e : expr) (c1' c2' : cache) (r1 r2 : expr),
+    cache_inv c1 -> cache_inv c2 ->
+    simplify_cached f1 c1 e = (c1', SOk r1) -> simplify_cached f2 c2 e = (c2', SOk r2) -> r1 = r2.
+Proof. exact simplify_cached_history_independent. Qed.
+Print Assumptions C13_history_independent.
+
+Theorem C13_cached_idempotent :
+  forall (f1 f2 : nat) (c1 c2 : cache) (e : expr) (c1' c2' : cache) (r r' : expr),
+    cache_inv c1 -> cache_inv c2 ->
+    simplify_cached f1 c1 e = (c1', SOk r) -> simplify_cached f2 c2 r = (c2', SOk r') -> r' = r.
+Proof. exact simplify_cached_idempotent. Qed.
+Print Assumptions C13_cached_idempotent.
+
+(** non-vacuity: a history in which the second member is rewritten through the entry of the first *)
+Example C13_example_history :
+  let x := BVSymbol "x" 4 in
+  let a := BVNot (BVNot x 4) 4 in
+  let b := BVAnd a a 4 in
+  snd (simplify_batch 200 [] [a; b; a]) = [SOk x; SOk x; SOk x].
+Proof. vm_compute. reflexivity. Qed.
 
 Example C13_example :
   let e := BVNot (BVNot (BVAdd (BVSymbol "x" 1) (BVLiteral 1 1) 1) 1) 1 in
